@@ -27,7 +27,7 @@ def verify(mutdir):
     cmd = re.sub(r"cd \S+ &&", "", cmd).strip()
     if not os.path.isdir(WT):
         sh("git -C /repo worktree add -q --detach %s HEAD" % WT)
-    sh("git checkout -q --detach $(git -C /repo rev-parse HEAD) && git checkout -- . && git clean -fdq", cwd=WT)
+    sh("git reset -q --hard; git checkout -q --detach $(git -C /repo rev-parse HEAD) && git reset -q --hard && git clean -fdq", cwd=WT)
     out = {"dir": mutdir}
     dst = os.path.join(WT, place)
     os.makedirs(os.path.dirname(dst), exist_ok=True)
@@ -36,7 +36,7 @@ def verify(mutdir):
     rc, o = sh(cmd, cwd=WT)
     out["demo_without_patch"] = "pass" if rc == 0 else "FAIL"
     os.remove(dst)
-    rc, o = sh("git apply %s" % patch, cwd=WT)
+    rc, o = sh("git apply --3way %s && git reset -q" % patch, cwd=WT)
     out["apply"] = rc == 0
     if rc != 0:
         out["apply_err"] = o[-300:]
@@ -50,7 +50,7 @@ def verify(mutdir):
     sh("cp %s %s" % (demo, dst))
     rc, o = sh(cmd, cwd=WT)
     out["demo_with_patch"] = "fails" if rc != 0 else "PASSES"
-    sh("git checkout -- . && git clean -fdq", cwd=WT)
+    sh("git reset -q --hard && git clean -fdq", cwd=WT)
     out["ok"] = out["demo_without_patch"] == "pass" and out["build"] and out["existing_tests"] == "pass" and out["demo_with_patch"] == "fails"
     return out
 
